@@ -1,61 +1,90 @@
 (* Correspondence for C08: compare the model with what /repo returned on the same inputs. *)
-From CPL Require Import Model.Base Model.Totalistic.
+From CPL Require Import Model.Base Model.Rules Model.Engine Model.Evolve1D Model.Evolve2D Model.Totalistic.
 
-(* cls: called through TotalisticRule(k, rule)(n, c, t) instead of totalistic_rule(n, k, rule);
-   unsigned: the array dtype is uint8; cells: the array flattened row-major;
-   mask: None for a plain ndarray, Some m for np.ma.masked_array(cells, m) (flattened);
-   vn: Some r = the mask was built like evolve2d builds the von Neumann mask of radius r
-   (the model's von_neumann_mask r must equal the mask given) *)
-(* one neighbourhood of a sequence: dtype flag, flattened cells, mask (None = plain ndarray), von Neumann radius *)
-Inductive item := Item (unsigned : bool) (cells : list Z) (mask : option (list bool)) (vn : option nat).
+(* one neighbourhood: unsigned = the dtype is an unsigned integer type (np.sum gives uint64; every signed type
+   and bool give int64), cells = the array flattened row-major, mask = None for a plain ndarray / Some m for
+   np.ma.masked_array(cells, m), vn = Some r when the mask was built like evolve2d builds the von Neumann mask
+   of radius r (the model's von_neumann_mask r must equal the mask given); c, t = the other two arguments of a
+   class call (ignored by the model, as by the code) *)
+Inductive item :=
+  Item (unsigned : bool) (cells : list Z) (mask : option (list bool)) (vn : option nat) (c : Z) (t : nat).
 
-(* CSeq: ONE TotalisticRule(k, rule) object called on the items in order (c = the position, t = 1);
-   obs = what each call returned *)
 Inductive case :=
-| CTot (cls unsigned : bool) (cells : list Z) (mask : option (list bool)) (vn : option nat)
-       (k rule : N) (obs : res Z)
-| CSeq (k rule : N) (items : list item) (obs : list (res Z)).
+(* one call: cls = through a fresh TotalisticRule(k, rule)(n, c, t) instead of totalistic_rule(n, k, rule) *)
+| CTot (cls : bool) (k rule : N) (it : item) (obs : res Z)
+(* ONE TotalisticRule(k, rule) object called on the items in order; obs = what each call returned *)
+| CSeq (k rule : N) (items : list item) (obs : list (res Z))
+(* cpl.evolve(init, timesteps=T, apply_rule=TotalisticRule(k, rule), r=r): obs = the whole history *)
+| CEvolve1 (k rule : N) (r : nat) (init : list Z) (T : nat) (obs : res (list (list Z)))
+(* cpl.evolve2d(init, timesteps=T, apply_rule=TotalisticRule(k, rule), r=r, neighbourhood=...) *)
+| CEvolve2 (k rule : N) (r : nat) (vonneumann : bool) (init : list (list Z)) (T : nat)
+           (obs : res (list (list (list Z)))).
 
 Definition item_nb (it : item) : nbhd :=
   match it with
-  | Item u cells None _ => Plain u cells
-  | Item u cells (Some m) _ => Masked u cells m
+  | Item u cells None _ _ _ => Plain u cells
+  | Item u cells (Some m) _ _ _ => Masked u cells m
   end.
 Definition item_mask_ok (it : item) : bool :=
   match it with
-  | Item _ _ (Some m) (Some r) => list_eqb Bool.eqb m (von_neumann_mask r)
+  | Item _ _ (Some m) (Some r) _ _ => list_eqb Bool.eqb m (von_neumann_mask r)
   | _ => true
   end.
 Definition item_in_domain (k : N) (it : item) : bool :=
-  match it with Item _ cells _ _ => forallb (fun x => (0 <=? x)%Z && (x <=? Z.of_N k - 1)%Z) cells end.
+  match it with Item _ cells _ _ _ _ => forallb (fun x => (0 <=? x)%Z && (x <=? Z.of_N k - 1)%Z) cells end.
+Definition item_ct (it : item) : Z * nat := match it with Item _ _ _ _ c t => (c, t) end.
+
+Definition to_z (r : res N) : res Z := bind r (fun d => Ok (Z.of_N d)).
+
 Definition seq_calls (items : list item) : list (nbhd * Z * nat) :=
-  map (fun p => (item_nb (snd p), Z.of_nat (fst p), 1)) (combine (seq 0 (length items)) items).
+  map (fun it => (item_nb it, fst (item_ct it), snd (item_ct it))) items.
 Definition seq_model (k rule : N) (items : list item) : list (res Z) :=
-  map (fun r => bind r (fun d => Ok (Z.of_N d))) (TotalisticRule_seq k rule (seq_calls items)).
+  map to_z (TotalisticRule_seq k rule (seq_calls items)).
 
-Definition model_one (c : case) : res Z :=
-  match c with
-  | CTot cls u cells mask _ k rule _ =>
-      bind (match mask with
-            | None => if cls then TotalisticRule_call k rule u cells 0%Z 1 else totalistic_rule u cells k rule
-            | Some m => if cls then TotalisticRule_call_masked k rule u cells m 0%Z 1
-                        else totalistic_rule_masked u cells m k rule
-            end) (fun d => Ok (Z.of_N d))
-  | CSeq _ _ _ _ => Raise OtherError
-  end.
+(* the class as a rule of the engine models (Model/Rules.v): the engines' rules return values, so a raise
+   (impossible for contents in 0..k-1 and a rule number in range) is mapped to -1, which no run can contain *)
+Definition val_or_m1 (r : res N) : Z := match r with Ok d => Z.of_N d | Raise _ => (-1)%Z end.
+Definition tot_rule1 (k rule : N) : rule1 unit :=
+  fun s n c t => (s, val_or_m1 (TotalisticRule_call k rule false n (Z.of_nat c) t)).
+Definition tot_rule2 (k rule : N) : rule2 unit :=
+  fun s n c t => (s, val_or_m1 (TotalisticRule_call_masked k rule false (concat (nb_vals n)) (concat (nb_mask n))
+                                                              (Z.of_nat (fst c)) t)).
 
-(* what the model computes, call by call (one entry for CTot) *)
+Definition flat1 (r : res (unit * list (list Z))) : list (res Z) :=
+  match r with Ok (_, h) => map Ok (concat h) | Raise e => [Raise e] end.
+Definition flat2 (r : res (unit * list (list (list Z)))) : list (res Z) :=
+  match r with Ok (_, h) => map Ok (concat (concat h)) | Raise e => [Raise e] end.
+
+(* what the model computes, call by call / cell by cell *)
 Definition model_out (c : case) : list (res Z) :=
   match c with
-  | CTot _ _ _ _ _ _ _ _ => [model_one c]
+  | CTot cls k rule it _ =>
+      [to_z (if cls then TotalisticRule_call_nb k rule (item_nb it) (fst (item_ct it)) (snd (item_ct it))
+             else totalistic_nb k rule (item_nb it))]
   | CSeq k rule items _ => seq_model k rule items
+  | CEvolve1 k rule r init T _ => flat1 (evolve_plain (tot_rule1 k rule) store_id r tt [init] T)
+  | CEvolve2 k rule r vn init T _ =>
+      flat2 (evolve2d_plain (tot_rule2 k rule) store_id r (if vn then VonNeumann else Moore) tt [init] T)
   end.
+
+Definition observed (c : case) : list (res Z) :=
+  match c with
+  | CTot _ _ _ _ obs => [obs]
+  | CSeq _ _ _ obs => obs
+  | CEvolve1 _ _ _ _ _ obs => match obs with Ok h => map Ok (concat h) | Raise e => [Raise e] end
+  | CEvolve2 _ _ _ _ _ _ obs => match obs with Ok h => map Ok (concat (concat h)) | Raise e => [Raise e] end
+  end.
+
+(* the model's flat von Neumann mask is the engine model's mask (Model/Evolve2D.v), for the radii used *)
+Definition masks_consistent : bool :=
+  forallb (fun r => list_eqb Bool.eqb (von_neumann_mask r) (concat (vn_mask r))) [0; 1; 2; 3; 4].
 
 Definition mask_ok (c : case) : bool :=
   match c with
-  | CTot _ _ _ (Some m) (Some r) _ _ _ => list_eqb Bool.eqb m (von_neumann_mask r)
-  | CTot _ _ _ _ _ _ _ _ => true
+  | CTot _ _ _ it _ => item_mask_ok it
   | CSeq _ _ items _ => forallb item_mask_ok items
+  | CEvolve1 _ _ _ _ _ _ => true
+  | CEvolve2 _ _ r _ _ _ _ => list_eqb Bool.eqb (von_neumann_mask r) (concat (vn_mask r))
   end.
 
 (* ValueError is the class the property names: it must be raised by both or by neither.
@@ -69,19 +98,20 @@ Definition res_agree (a b : res Z) : bool :=
   end.
 
 (* the domain the property quantifies over: 2 <= k <= 36 and contents in 0..k-1 (any rule number).
-   Outside it (generator bucket "ood/...") the model still computes what numpy does (model_out),
+   Outside it (generator buckets "ood/...") the model still computes what numpy does (model_out),
    but the property constrains nothing there, so such cases are not compared. *)
+Definition k_ok (k : N) : bool := (2 <=? k)%N && (k <=? 36)%N.
+Definition cells_ok (k : N) (cells : list Z) : bool :=
+  forallb (fun x => (0 <=? x)%Z && (x <=? Z.of_N k - 1)%Z) cells.
 Definition in_domain (c : case) : bool :=
   match c with
-  | CTot _ _ cells _ _ k _ _ =>
-      (2 <=? k)%N && (k <=? 36)%N && forallb (fun x => (0 <=? x)%Z && (x <=? Z.of_N k - 1)%Z) cells
-  | CSeq k _ items _ => (2 <=? k)%N && (k <=? 36)%N && forallb (item_in_domain k) items
+  | CTot _ k _ it _ => k_ok k && item_in_domain k it
+  | CSeq k _ items _ => k_ok k && forallb (item_in_domain k) items
+  | CEvolve1 k _ _ init _ _ => k_ok k && cells_ok k init
+  | CEvolve2 k _ _ _ init _ _ => k_ok k && forallb (cells_ok k) init
   end.
 
-Definition observed (c : case) : list (res Z) :=
-  match c with CTot _ _ _ _ _ _ _ obs => [obs] | CSeq _ _ _ obs => obs end.
-
-(* every call of a sequence must agree, and there must be as many answers as calls *)
+(* every call / cell must agree, and there must be as many answers as the model has *)
 Definition all_agree (c : case) : bool := list_eqb res_agree (model_out c) (observed c).
 
 Definition check_case (c : case) : bool := mask_ok c && (if in_domain c then all_agree c else true).
